@@ -124,6 +124,7 @@ inductive Op
   | filterTypes (ts : List Nat)
   | filterTime (r : TRange)
   | filterSlice (i j : Nat)
+  | filterStride (i j k : Nat)
   | removeUntimed
   | clear
   | rewind
@@ -138,6 +139,14 @@ inductive Res
   | valueError
   | indexError
   deriving DecidableEq, Repr
+
+/-- Every `k`-th entry, starting with the first (`index[i:j:k]` after the `i:j` part; `k = 0` is refused by
+Python and is not sent by the harness; here it behaves as `k = 1`). -/
+def stride (k : Nat) : List Ent → List Ent
+  | [] => []
+  | x :: xs => x :: stride k (xs.drop (k - 1))
+termination_by l => l.length
+decreasing_by simp only [List.length_drop, List.length_cons]; omega
 
 /-- The repositioning at the end of `filter_in_place`: first entry after the last consumed offset. -/
 def reposition (cur : List Ent) (prevOff : Option Nat) : Nat :=
@@ -161,6 +170,7 @@ def step (s : Cur) : Op → Cur × Res
     | none => (s, .indexError)
     | some c => (s.withCur c, .done)
   | .filterSlice i j => (s.withCur ((s.cur.take j).drop i), .done)
+  | .filterStride i j k => (s.withCur (stride k ((s.cur.take j).drop i)), .done)
   | .removeUntimed => (s.withCur (removeUntimed s.cur), .done)
   | .clear => (s.withCur s.orig, .done)
   | .rewind => (⟨s.orig, s.cur, 0, none⟩, .done)
